@@ -277,7 +277,9 @@ theorem expand_exact1 (hst : Stage1 sys) (hc : Coherent (specSys sys u cw) I) :
       simp only [diffResp] at he hn ⊢
       obtain ⟨heb, hes⟩ := List.append_eq_nil_iff.mp he
       -- unpack the notes
-      obtain ⟨hn1, hcutn⟩ := List.append_eq_nil_iff.mp hn
+      obtain ⟨hn0, hcutn⟩ := List.append_eq_nil_iff.mp hn
+      obtain ⟨hn00, _⟩ := List.append_eq_nil_iff.mp hn0
+      obtain ⟨hn1, _⟩ := List.append_eq_nil_iff.mp hn00
       obtain ⟨hn2, hexn⟩ := List.append_eq_nil_iff.mp hn1
       obtain ⟨hn3, hclS⟩ := List.append_eq_nil_iff.mp hn2
       obtain ⟨hn4, hclB⟩ := List.append_eq_nil_iff.mp hn3
@@ -297,7 +299,7 @@ theorem expand_exact1 (hst : Stage1 sys) (hc : Coherent (specSys sys u cw) I) :
           rw [List.any_eq_false]; intro f hf; simpa using hbwk f hf
         unfold exclNotes at hexn
         simp only [hbw] at hexn
-        have h1 := (List.append_eq_nil_iff.mp (List.append_eq_nil_iff.mp (List.append_eq_nil_iff.mp hexn).1).1).1
+        have h1 := (List.append_eq_nil_iff.mp (List.append_eq_nil_iff.mp hexn).1).1
         have h2 := noteIf_nil h1
         simp only [Bool.not_false, Bool.true_and] at h2
         intro fu hfu ⟨hst', hno⟩
